@@ -40,6 +40,12 @@ type proc struct {
 	in    io.WriteCloser
 	out   *bufio.Reader
 	tmoMS int
+	lines chan lineOrErr // filled by a reader goroutine (lets Check enforce a hard wall-clock limit)
+}
+
+type lineOrErr struct {
+	s   string
+	err error
 }
 
 func startProc(kind Kind, timeoutMS int) (*proc, error) {
@@ -64,7 +70,17 @@ func startProc(kind Kind, timeoutMS int) (*proc, error) {
 	if err := cmd.Start(); err != nil {
 		return nil, err
 	}
-	p := &proc{kind: kind, cmd: cmd, in: in, out: bufio.NewReaderSize(out, 1<<16), tmoMS: timeoutMS}
+	p := &proc{kind: kind, cmd: cmd, in: in, out: bufio.NewReaderSize(out, 1<<16), tmoMS: timeoutMS, lines: make(chan lineOrErr, 64)}
+	go func() {
+		for {
+			l, err := p.out.ReadString('\n')
+			p.lines <- lineOrErr{l, err}
+			if err != nil {
+				close(p.lines)
+				return
+			}
+		}
+	}()
 	return p, nil
 }
 
@@ -73,8 +89,24 @@ func (p *proc) send(s string) error {
 	return err
 }
 
+var errHardTimeout = fmt.Errorf("solver exceeded the hard wall-clock limit")
+
+// rawLine returns the next output line; the solver's own timeout is backed by a hard limit of twice that time.
+func (p *proc) rawLine() (string, error) {
+	limit := time.Duration(2*p.tmoMS+5000) * time.Millisecond
+	select {
+	case le, ok := <-p.lines:
+		if !ok {
+			return "", io.EOF
+		}
+		return le.s, le.err
+	case <-time.After(limit):
+		return "", errHardTimeout
+	}
+}
+
 func (p *proc) readLine() (string, error) {
-	l, err := p.out.ReadString('\n')
+	l, err := p.rawLine()
 	return strings.TrimSpace(l), err
 }
 
@@ -84,7 +116,7 @@ func (p *proc) readSexp() (string, error) {
 	depth := 0
 	started := false
 	for {
-		l, err := p.out.ReadString('\n')
+		l, err := p.rawLine()
 		sb.WriteString(l)
 		for _, ch := range l {
 			if ch == '(' {
